@@ -188,7 +188,7 @@ CHECKS["C08"] = dict(
 
 CHECKS["C15"] = dict(
     title="ascii_dump / ascii_load round-trips every object in every internal state",
-    quick=T([("c15_dumpload", 1)], cases=200000, secs=45),
+    quick=T([("c15_dumpload", 1)], cases=1500000, secs=60),
     thorough=T([("c15_dumpload", 1)], cases=5000000, secs=600, flavour="san"),
     rule="case = object reached through a generated history (C/NNC polyhedra, Grid, BD_Shape<mpq|double>, Octagonal_Shape<mpz|double>, Rational/Double "
          "boxes, Pointset_Powerset<C_Polyhedron>, Constraints_Product<C_Polyhedron,Grid>, constraint / generator / congruence / grid-generator "
